@@ -14,6 +14,7 @@ import (
 	"github.com/specterops/dawgs/cypher/models/cypher"
 	"github.com/specterops/dawgs/cypher/models/pgsql/translate"
 	"github.com/specterops/dawgs/drivers/pg/pgutil"
+	"github.com/specterops/dawgs/graph"
 )
 
 type Clause struct {
@@ -117,7 +118,9 @@ func parseWith(ctx *frontend.Context, text string) (out parseOut) {
 	return out
 }
 
-var dmlRe = regexp.MustCompile(`(?i)\b(insert\s+into|update\s+\w+\s+set|delete\s+from|merge\s+into)\b`)
+// data-modifying statements against the graph schema (node, edge, kind, graph and their partitions).  Shortest-path
+// expansions legitimately INSERT INTO the per-query frontier temp tables of the traversal harness functions.
+var dmlRe = regexp.MustCompile(`(?i)\b(insert\s+into|delete\s+from|merge\s+into|update)\s+(only\s+)?(node|edge|kind|graph)(_\w+)?\b`)
 
 // Gate parses every rendered skeleton twice - without filters (control: is the text syntactically acceptable at
 // all?) and under the default context - and translates what the default context accepts.
@@ -125,9 +128,10 @@ func Gate(args []string) {
 	fs := flag.NewFlagSet("front gate", flag.ExitOnError)
 	in := fs.String("in", "skeletons.ndjson", "")
 	outp := fs.String("out", "trace.ndjson", "")
+	corpus := fs.Bool("corpus", true, "also run the corpus insertion cases")
 	fs.Parse(args)
 	w := tr.Create(*outp)
-	mapper := pgutil.NewInMemoryKindMapper()
+	mapper := NewMapper()
 	for hid, s := range tr.ReadLines[Skeleton](*in) {
 		text := render(s)
 		ctl := parseWith(frontend.NewContext(), text)
@@ -135,6 +139,32 @@ func Gate(args []string) {
 		ev := map[string]any{"e": "gate", "hid": hid, "text": text, "forbidden": s.Forbidden, "model_accepts": s.Accepted,
 			"control_ok": ctl.ok, "default_ok": def.ok, "panic": ctl.panicky || def.panicky, "err": def.err,
 			"translated": false, "dml": false, "kinds": kinds(s)}
+		if def.ok && def.model != nil {
+			func() {
+				defer func() {
+					if r := recover(); r != nil {
+						ev["translate_panic"] = fmt.Sprint(r)
+					}
+				}()
+				if res, err := translate.Translate(context.Background(), def.model, mapper, nil, 1); err != nil {
+					ev["translate_err"] = err.Error()
+				} else if sql, err := translate.Translated(res); err == nil {
+					ev["translated"] = true
+					ev["dml"] = dmlRe.MatchString(sql)
+				}
+			}()
+		}
+		w.Emit(ev)
+	}
+	// metamorphic part: every corpus query the default context accepts, with one forbidden clause inserted
+	hid := 1000000
+	gateOne := func(text string, forbidden bool, kind string) bool {
+		ctl := parseWith(frontend.NewContext(), text)
+		def := parseWith(frontend.DefaultCypherContext(), text)
+		ev := map[string]any{"e": "gate", "hid": hid, "text": text, "forbidden": forbidden, "model_accepts": !forbidden,
+			"control_ok": ctl.ok, "default_ok": def.ok, "panic": ctl.panicky || def.panicky, "err": def.err,
+			"translated": false, "dml": false, "kinds": []string{kind}}
+		hid++
 		if def.ok && def.model != nil {
 			func() {
 				defer func() {
@@ -151,9 +181,34 @@ func Gate(args []string) {
 			}()
 		}
 		w.Emit(ev)
+		return def.ok
+	}
+	if *corpus {
+		inserts := []string{"set zz.x = 1", "delete zz", "detach delete zz", "create (zz:K)", "merge (zz:K)", "remove zz.x",
+			"foreach (i in [1] | set zz.x = i)", "create unique (zz)-[:E]->(yy)", "call db.labels() yield label"}
+		for _, c := range Corpus() {
+			if !gateOne(c.Text, false, "corpus:"+c.Tag) {
+				continue
+			}
+			for _, ins := range inserts {
+				if t, ok := insertBeforeLastReturn(c.Text, ins); ok {
+					gateOne(t, true, "corpus+"+strings.Fields(ins)[0])
+				}
+			}
+			gateOne(c.Text+" skip $p", true, "corpus+$param")
+		}
 	}
 	w.Close()
 	fmt.Printf("{\"events\":%d}\n", w.N)
+}
+
+// NewMapper returns a kind mapper that knows the kinds the renderers use.
+func NewMapper() *pgutil.InMemoryKindMapper {
+	m := pgutil.NewInMemoryKindMapper()
+	for _, k := range []string{"K", "E", "A", "B", "K0", "K1", "K2", "E0", "E1", "User", "Group"} {
+		m.Put(graph.StringKind(k))
+	}
+	return m
 }
 
 func kinds(s Skeleton) []string {
